@@ -136,11 +136,18 @@ Proof. vm_compute. reflexivity. Qed.
 
 (* the hypotheses of the assignment theorem are met by a reachable state: two counted metatypes *)
 Example C15_ex_assign_state :
-  exists s xa xb, final init [ONew KHCnt 0; ONew KReply 1]%nat = Some s /\
-    slot s 0%nat = Some 0%nat /\ slot s 1%nat = Some 1%nat /\
-    nth_error (objs s) 0%nat = Some xb /\ cls_of (okind xb) = Counted /\ ocnt xb < CMAX /\
-    nth_error (objs s) 1%nat = Some xa /\ cls_of (okind xa) = Counted /\ oinner xa = None.
-Proof. eexists _, _, _. vm_compute. repeat split. Qed.
+  match final init [ONew KHCnt 0; ONew KReply 1]%nat with
+  | Some s =>
+      Good s -> (* (C15_step_preserves_invariant gives it) *)
+      slot s 0%nat = Some 0%nat /\ slot s 1%nat = Some 1%nat /\
+      match nth_error (objs s) 0%nat, nth_error (objs s) 1%nat with
+      | Some xb, Some xa => cls_of (okind xb) = Counted /\ ocnt xb < CMAX /\
+                            cls_of (okind xa) = Counted /\ oinner xa = None
+      | _, _ => False
+      end
+  | None => False
+  end.
+Proof. vm_compute. intros _. repeat split. Qed.
 
 (* a counter forced to the maximum: the next share fails, the handle multiset is unchanged *)
 Example C15_ex_forced_max :
